@@ -7,7 +7,12 @@ Import ListNotations.
 Close Scope Z_scope.
 Open Scope nat_scope.
 
-Inductive tkind := TPipe | TSink | TZip | TCombine.       (* TPipe: Stream(), map(identity), union: forward *)
+Inductive tkind := TPipe | TSink | TZip | TCombine | TRSink | TCombineOn (trig : nat).
+(* TPipe: Stream(), map(identity), union: forward.  TRSink: a sink whose callback may edit the graph while the
+   element it was handed is still being delivered to other nodes (see ORemit).  TCombineOn t: combine_latest with an
+   explicit emit_on naming the stream t (given as a stream or by position at construction): it emits only when t
+   delivers, whatever happens to its inputs afterwards, and it holds a strong reference to t *)
+Definition sinkb (k : tkind) : bool := match k with TSink | TRSink => true | _ => false end.
 
 Record tnode := {
   tk : tkind;
@@ -102,7 +107,7 @@ Fixpoint temit (fuel : nat) (g : tgraph) (n : nat) (x : val) : tgraph * list tde
         let log := log ++ [(n, d, x)] in
         match tk nd with
         | TPipe => let '(g', l') := temit fuel' g d x in (g', log ++ l')
-        | TSink => (g, log)
+        | TSink | TRSink => (g, log)
         | TZip =>
             let L := buf_get n (t_bufs nd) ++ [x] in
             let nd1 := with_bufs nd (buf_set n L (t_bufs nd)) in
@@ -116,6 +121,13 @@ Fixpoint temit (fuel : nat) (g : tgraph) (n : nat) (x : val) : tgraph * list tde
             let g1 := tset g d (with_last nd last') in
             match all_some_v last' with
             | Some vs => let '(g', l') := temit fuel' g1 d (VTup vs) in (g', log ++ l')
+            | None => (g1, log)
+            end
+        | TCombineOn t =>
+            let last' := set_at (index_nat n (t_ups nd)) (Some x) (t_last nd) in
+            let g1 := tset g d (with_last nd last') in
+            match all_some_v last' with
+            | Some vs => if n =? t then let '(g', l') := temit fuel' g1 d (VTup vs) in (g', log ++ l') else (g1, log)
             | None => (g1, log)
             end
         end) (t_downs (tget g n)) (g, [])
@@ -139,7 +151,7 @@ Fixpoint zip_drain (fuel : nat) (g : tgraph) (d : nat) : tgraph * list tdeliv :=
 Definition remove_upstream (nd : tnode) (u : nat) : tnode :=
   let nd1 := match tk nd with
              | TZip => with_bufs nd (buf_del u (t_bufs nd))
-             | TCombine => with_last nd (remove_at (index_nat u (t_ups nd)) (t_last nd))
+             | TCombine | TCombineOn _ => with_last nd (remove_at (index_nat u (t_ups nd)) (t_last nd))
              | _ => nd
              end in
   with_ups nd1 (remove_first u (t_ups nd)).
@@ -147,7 +159,7 @@ Definition remove_upstream (nd : tnode) (u : nat) : tnode :=
 Definition add_upstream (nd : tnode) (u : nat) : tnode :=
   let nd1 := match tk nd with
              | TZip => with_bufs nd (buf_set u [] (t_bufs nd))
-             | TCombine => with_last nd (t_last nd ++ [None])
+             | TCombine | TCombineOn _ => with_last nd (t_last nd ++ [None])
              | _ => nd
              end in
   with_ups nd1 (t_ups nd ++ [u]).
@@ -155,12 +167,16 @@ Definition add_upstream (nd : tnode) (u : nat) : tnode :=
 (* ---- garbage collection: upstream references are strong, downstream references weak ---------------- *)
 Definition is_root (n : tnode) : bool := t_alive n && (t_held n || t_reg n).
 
-(* nodes kept alive: roots and, transitively, the upstreams of kept nodes *)
+(* strong references of a node: its upstreams and, for combine_latest with an explicit emit_on, that stream *)
+Definition t_refs (n : tnode) : list nat :=
+  t_ups n ++ match tk n with TCombineOn t => [t] | _ => [] end.
+
+(* nodes kept alive: roots and, transitively, what kept nodes reference *)
 Fixpoint keep (fuel : nat) (g : tgraph) (kept : list nat) : list nat :=
   match fuel with
   | O => kept
   | S fuel' =>
-      let more := flat_map (fun i => filter (fun u => negb (mem u kept)) (t_ups (tget g i))) kept in
+      let more := flat_map (fun i => filter (fun u => negb (mem u kept)) (t_refs (tget g i))) kept in
       match more with
       | [] => kept
       | _ => keep fuel' g (kept ++ more)
@@ -176,37 +192,42 @@ Definition collect (g : tgraph) : tgraph :=
       (seq 0 (length g)).
 
 (* ---- operations --------------------------------------------------------------------------------------- *)
+(* a graph edit; also what a reactive sink does from inside its callback *)
+Inductive tedit :=
+| EConnect (u d : nat)
+| EDisconnect (u d : nat)
+| EDestroy (m : nat).
+
 Inductive top :=
 | ONew (k : tkind) (ups : list nat)      (* create through the fluent API / constructor over existing nodes *)
 | OEmit (n : nat) (x : val)
 | OConnect (u d : nat)
 | ODisconnect (u d : nat)
 | ODestroy (n : nat)
-| ODrop (n : nat).                       (* the program drops its reference; the collector runs *)
+| ODrop (n : nat)                        (* the program drops its reference; the collector runs *)
+| ORemit (n : nat) (x : val) (t : nat) (e : tedit).
+   (* emit x at n; the FIRST time the reactive sink t is handed an element during this emission it performs the edit e
+      from inside its callback, i.e. while the loops of Stream._emit further up the call stack are still running *)
 
 Inductive tres := ROk | RRaise.
 
 Definition new_node (k : tkind) (ups : list nat) : tnode :=
-  {| tk := k; t_ups := ups; t_downs := []; t_held := true; t_reg := match k with TSink => true | _ => false end;
+  {| tk := k; t_ups := ups; t_downs := []; t_held := true; t_reg := sinkb k;
      t_alive := true;
      t_bufs := match k with TZip => map (fun u => (u, [])) ups | _ => [] end;
-     t_last := match k with TCombine => map (fun _ => None) ups | _ => [] end |}.
+     t_last := match k with TCombine | TCombineOn _ => map (fun _ => None) ups | _ => [] end |}.
 
 Definition add_down (g : tgraph) (u d : nat) : tgraph :=
   let nu := tget g u in
   if mem d (t_downs nu) then g else tset g u (with_downs nu (t_downs nu ++ [d])).
 
-Definition tstep0 (g : tgraph) (o : top) : tgraph * tres * list tdeliv :=
-  match o with
-  | ONew k ups =>
-      let i := length g in
-      let g1 := g ++ [new_node k ups] in
-      (fold_left (fun g u => add_down g u i) ups g1, ROk, [])
-  | OEmit n x => let '(g', l) := temit (S (length g)) g n x in (g', ROk, l)
-  | OConnect u d =>
+(* connect / disconnect / destroy: both ends of the link are updated at once *)
+Definition tedit0 (g : tgraph) (e : tedit) : tgraph * tres * list tdeliv :=
+  match e with
+  | EConnect u d =>
       let g1 := add_down g u d in
       (tset g1 d (add_upstream (tget g1 d) u), ROk, [])
-  | ODisconnect u d =>
+  | EDisconnect u d =>
       let nu := tget g u in
       if mem d (t_downs nu) then
         let g1 := tset g u (with_downs nu (remove_first d (t_downs nu))) in
@@ -216,16 +237,101 @@ Definition tstep0 (g : tgraph) (o : top) : tgraph * tres * list tdeliv :=
         | _ => (g2, ROk, [])
         end
       else (g, RRaise, [])                    (* WeakSet.remove raises KeyError: nothing changed *)
-  | ODestroy n =>
+  | EDestroy n =>
       let nd := tget g n in
       let g1 := fold_left (fun g u =>
                   let nu := tget g u in
                   let g' := tset g u (with_downs nu (remove_first n (t_downs nu))) in
                   tset g' n (remove_upstream (tget g' n) u)) (t_ups nd) g in
       (tset g1 n (with_flags (tget g1 n) (t_held (tget g1 n)) false (t_alive (tget g1 n))), ROk, [])
+  end.
+
+(* ---- an emission during which a consumer edits the graph ------------------------------------------------ *)
+Definition heldb (g : tgraph) (n : nat) : bool :=
+  (n <? length g) && t_alive (tget g n) && t_held (tget g n).
+Definition edit_nodes (e : tedit) : list nat :=
+  match e with EConnect u d => [u; d] | EDisconnect u d => [u; d] | EDestroy m => [m] end.
+(* the callback reaches the nodes through the program's variables: a dropped one cannot be edited *)
+Definition apply_edit (g : tgraph) (e : tedit) : tgraph * tres * list tdeliv :=
+  if forallb (heldb g) (edit_nodes e) then tedit0 g e else (g, RRaise, []).
+
+Definition rpend : Type := option (nat * tedit).             (* reactive sink that has not reacted yet, its edit *)
+Definition rstate : Type := tgraph * rpend * bool * list tdeliv.   (* graph, pending, an update raised, log *)
+
+(* Stream._emit at n: `for downstream in list(self.downstreams)` walks the SNAPSHOT taken when this call started
+   (the list t_downs (tget g n) the fold runs over), while every hand-over looks at the CURRENT graph: an edit made by
+   the reactive sink changes both ends of the link at once, deeper _emit calls that start later take their snapshot
+   from the edited graph, loops already running keep theirs.  A combining node that is handed an element by a node
+   that is no longer among its inputs (served from a stale snapshot) raises (zip: self.buffers[who] KeyError,
+   combine_latest: self.upstreams.index(who) ValueError) and the exception unwinds the whole emission. *)
+Fixpoint rdeliver (fuel : nat) (g : tgraph) (p : rpend) (n : nat) (x : val) : rstate :=
+  match fuel with
+  | O => (g, p, false, [])
+  | S fuel' =>
+      fold_left (fun (acc : rstate) d =>
+        let '(g, p, raised, log) := acc in
+        if raised then acc else
+        let nd := tget g d in
+        let log := log ++ [(n, d, x)] in
+        match tk nd with
+        | TPipe => let '(g', p', r', l') := rdeliver fuel' g p d x in (g', p', r', log ++ l')
+        | TSink => (g, p, false, log)
+        | TRSink =>
+            match p with
+            | Some (t, e) =>
+                if t =? d then let '(g', _, l') := apply_edit g e in (g', None, false, log ++ l')
+                else (g, p, false, log)
+            | None => (g, p, false, log)
+            end
+        | TZip =>
+            if mem n (map fst (t_bufs nd)) then
+              let L := buf_get n (t_bufs nd) ++ [x] in
+              let nd1 := with_bufs nd (buf_set n L (t_bufs nd)) in
+              if (length L =? 1) && zip_ready nd1 then
+                let tup := VTup (zip_heads nd1) in
+                let g1 := tset g d (zip_pop nd1) in
+                let '(g', p', r', l') := rdeliver fuel' g1 p d tup in (g', p', r', log ++ l')
+              else (tset g d nd1, p, false, log)
+            else (g, p, true, log)
+        | TCombine =>
+            if mem n (t_ups nd) then
+              let last' := set_at (index_nat n (t_ups nd)) (Some x) (t_last nd) in
+              let g1 := tset g d (with_last nd last') in
+              match all_some_v last' with
+              | Some vs => let '(g', p', r', l') := rdeliver fuel' g1 p d (VTup vs) in (g', p', r', log ++ l')
+              | None => (g1, p, false, log)
+              end
+            else (g, p, true, log)
+        | TCombineOn t =>
+            if mem n (t_ups nd) then
+              let last' := set_at (index_nat n (t_ups nd)) (Some x) (t_last nd) in
+              let g1 := tset g d (with_last nd last') in
+              match all_some_v last' with
+              | Some vs =>
+                  if n =? t then let '(g', p', r', l') := rdeliver fuel' g1 p d (VTup vs) in (g', p', r', log ++ l')
+                  else (g1, p, false, log)
+              | None => (g1, p, false, log)
+              end
+            else (g, p, true, log)
+        end) (t_downs (tget g n)) (g, p, false, [])
+  end.
+
+Definition tstep0 (g : tgraph) (o : top) : tgraph * tres * list tdeliv :=
+  match o with
+  | ONew k ups =>
+      let i := length g in
+      let g1 := g ++ [new_node k ups] in
+      (fold_left (fun g u => add_down g u i) ups g1, ROk, [])
+  | OEmit n x => let '(g', l) := temit (S (length g)) g n x in (g', ROk, l)
+  | OConnect u d => tedit0 g (EConnect u d)
+  | ODisconnect u d => tedit0 g (EDisconnect u d)
+  | ODestroy n => tedit0 g (EDestroy n)
   | ODrop n =>
       let nd := tget g n in
       (tset g n (with_flags nd false (t_reg nd) (t_alive nd)), ROk, [])
+  | ORemit n x t e =>
+      let '(g', _, r, l) := rdeliver (S (length g)) g (Some (t, e)) n x in
+      (g', if r then RRaise else ROk, l)
   end.
 
 (* CPython frees an object as soon as nothing references it (and the harness forces a collection of cycles
